@@ -3,7 +3,7 @@
 cd "$(dirname "$0")"
 export GOFLAGS=-mod=mod GOPROXY=off GOSUMDB=off GOTOOLCHAIN=local
 W=$(mktemp -d /tmp/vdev.XXXX); trap 'rm -rf $W' EXIT
-go1.26.8 run ./cmd/rewrite -repo ${REPO:-/repo} -out $W || exit 2
+go1.26.8 run ./cmd/rewrite -repo /repo ${SRC:+-src $SRC} -out $W || exit 2
 if [ "$3" = race ]; then
 go1.26.8 test -c -race -gcflags='verif/...=-race=false' -overlay $W/overlay.json -o $W/sim.test ./sim/simtest/ || exit 2
 else
